@@ -4,6 +4,7 @@ import (
 	"go/ast"
 	"go/token"
 	"go/types"
+	"strings"
 
 	"golang.org/x/tools/go/cfg"
 
@@ -19,7 +20,7 @@ import (
 // assigned it, carries the previous element's value over: a default that one
 // declaration overrides then sticks to the declarations that follow.
 func iterationIndependence(r *core.Run, rel string, files ...string) {
-	r.Rule("R-FLOW/carried", "in the range loops of the entity expansion, a variable declared outside the loop and assigned inside it from something other than its own previous value is assigned on every path of an iteration before it is read in that iteration: no element's output depends on the element before it")
+	r.Rule("R-FLOW/carried", "in the range loops over declared elements (slices of generated schema messages), a variable declared outside the loop and assigned inside it from something other than its own previous value is assigned on every path of an iteration before it is read in that iteration: no element's output depends on the element before it")
 	pk := r.P.Pkg(rel)
 	if pk == nil {
 		r.Fatal("anchor: package %s not found", rel)
@@ -43,13 +44,28 @@ func iterationIndependence(r *core.Run, rel string, files ...string) {
 				break
 			}
 		}
-		if !want[base] {
+		if !want[base] && !want["*"] || strings.HasSuffix(base, "_test.go") {
 			return
 		}
 		var g *cfg.CFG
 		ast.Inspect(fd.Body, func(nd ast.Node) bool {
 			rs, ok := nd.(*ast.RangeStmt)
 			if !ok {
+				return true
+			}
+			// only loops over declared elements: a slice of (pointers to) generated schema messages.
+			// Walking a path or the characters of a name is a state machine by design.
+			isDecl := false
+			if sl, ok := info.TypeOf(rs.X).Underlying().(*types.Slice); ok {
+				et := sl.Elem()
+				if p, ok := et.(*types.Pointer); ok {
+					et = p.Elem()
+				}
+				if nt := core.NamedOf(et); nt != nil && strings.HasSuffix(r.P.Fset.Position(nt.Obj().Pos()).Filename, ".pb.go") {
+					isDecl = true
+				}
+			}
+			if !isDecl {
 				return true
 			}
 			loops++
